@@ -200,6 +200,7 @@ type l1run struct {
 	forkLive    bool                         // the fork's txs are precommitted on the replica and not yet discarded
 	lastDiscard uint64                       // first id of the latest discard: the tx log holds discarded bytes until this id is committed
 	altLeft     int
+	limit       uint64   // deliveries of this step stop here (the fork point until the fork scenario has run)
 	trail       []string // the last steps of the schedule (diagnosis only)
 	dead        bool     // schedule abandoned (watchdog / replica cannot be repaired)
 	stats       map[string]int
@@ -417,6 +418,9 @@ func (s *l1run) buildPrimary() bool {
 	if cf.ZeroDiscard && s.n >= 3 {
 		s.zeroDiscardScenario()
 	}
+	if s.n >= 12 {
+		s.durabilityProbe()
+	}
 	if s.forkAt >= s.n {
 		s.forkAt = 0
 	}
@@ -456,6 +460,138 @@ func (s *l1run) zeroDiscardScenario() {
 	case hdr.Alh() != s.alhs[0]:
 		s.viol("replicatetx/honest/header-differs", fmt.Sprintf("tx 1 replicated after discarding everything has alh %x, the primary's is %x", hdr.Alh(), s.alhs[0]), nil)
 	}
+}
+
+// durabilityProbe does not trust the replica's own report of what it durably holds. A scratch replica (synced,
+// external commit allowance, values in value logs, a sync frequency so long that durability comes only from
+// explicit Sync calls, buffers large enough not to spill) gets groups of ReplicateTx calls in flight; at PRNG
+// moments PrecommittedAlh() -- the pair a sync-replication replica reports to its primary -- is sampled and a
+// crash image is taken right after (a plain copy of the files: what a process kill leaves, write buffers excluded).
+// The image, opened with the same options, must hold the reported id with the reported Alh as a precommitted or
+// committed tx. Everything written before the sample is in a copy made after it, so a missing tx refutes the report.
+func (s *l1run) durabilityProbe() {
+	opts := baseOpts(s.cf.HdrVersion, false, 1<<20).WithMaxIOConcurrency(1).WithWriteBufferSize(1 << 20).
+		WithMaxActiveTransactions(64).WithSynced(true).WithSyncFrequency(10 * time.Minute).
+		WithExternalCommitAllowance(true)
+	dir := s.c.Dir("durable")
+	defer os.RemoveAll(dir)
+	st, err := store.Open(dir, opts)
+	if err != nil {
+		s.c.Inconclusive("durability probe: open: " + err.Error())
+		return
+	}
+	defer st.Close()
+	ctx, cancel := context.WithTimeout(context.Background(), opTimeout)
+	defer cancel()
+	var wg sync.WaitGroup
+	defer wg.Wait()
+	defer cancel()
+	next := uint64(1)
+	limit := min(s.n, 40)
+	waitInmem := func(id uint64) bool {
+		for i := 0; i < 600000 && ctx.Err() == nil; i++ {
+			if st.LastPrecommittedTxID() >= id {
+				return true
+			}
+			time.Sleep(100 * time.Microsecond)
+		}
+		s.c.Inconclusive(fmt.Sprintf("[%s] durability probe: tx %d not precommitted in memory within %s", s.cf.Name, id, opTimeout))
+		return false
+	}
+	launch := func(k uint64) bool { // k more txs in flight; their calls return only after a Sync
+		for i := uint64(0); i < k && next <= limit; i++ {
+			id := next
+			next++
+			wg.Add(1)
+			go func() {
+				defer wg.Done()
+				hdr, err := st.ReplicateTx(ctx, s.exports[id], s.cf.Skip, false)
+				if err == nil {
+					if d, _ := st.PrecommittedAlh(); d < hdr.ID {
+						s.viol("replicatetx/returned-before-durable-precommit", fmt.Sprintf("durability probe: ReplicateTx of tx %d returned while the reported durable precommitted id was %d", hdr.ID, d), nil)
+					}
+				}
+			}()
+			if !waitInmem(id) { // in order: each one is in memory before the next is offered
+				return false
+			}
+		}
+		return true
+	}
+	nimg := 0
+	sample := func(moment string) {
+		id, alh := st.PrecommittedAlh()
+		cid, _ := st.CommittedAlh()
+		inmem := st.LastPrecommittedTxID()
+		if id == 0 {
+			return
+		}
+		shape := "durable=inmem"
+		switch {
+		case cid < id && id < inmem:
+			shape = "committed<durable<inmem"
+		case cid == id && id < inmem:
+			shape = "committed=durable<inmem"
+		case cid < id:
+			shape = "committed<durable=inmem"
+		}
+		img := s.c.Dir("image")
+		defer os.RemoveAll(img)
+		if err := sth.CopyDir(dir, img); err != nil {
+			s.c.Inconclusive("durability probe: copy: " + err.Error())
+			return
+		}
+		cs, err := store.Open(img, opts)
+		if err != nil {
+			// whether every crash image opens is C03's subject; here it only means the sample could not be judged
+			s.c.Count("l1_probe_image_open_errors", 1)
+			s.c.Note(fmt.Sprintf("[%s] durability probe: crash image does not open: %v", s.cf.Name, err))
+			return
+		}
+		defer cs.Close()
+		nimg++
+		s.c.Eval(1)
+		s.c.Count("l1_probe_crash_images", 1)
+		s.c.Distinct(fmt.Sprintf("L1/durability-probe/%s/%s", moment, shape))
+		h, err := cs.ReadTxHeader(id, true, false)
+		if err != nil || h.Alh() != alh {
+			have := cs.LastPrecommittedTxID()
+			s.viol("sync/replica-acknowledged-tx-not-durable", fmt.Sprintf("replica reported PrecommittedAlh() = (%d, %x) with committed=%d and in-memory precommitted=%d (%s, sampled %s); a crash image taken afterwards holds txs up to %d only (ReadTxHeader(%d): %v): the reported tx existed in write buffers only, a primary counting this replica would acknowledge a commit the replica loses in a crash",
+				id, alh[:6], cid, inmem, shape, moment, have, id, err), nil)
+		}
+		if h2, err := cs.ReadTxHeader(id, true, false); err == nil && id <= s.n && h2.Alh() != s.alhs[id-1] {
+			s.viol("sync/replica-durable-tx-differs", fmt.Sprintf("crash image: tx %d has alh %x, the primary's is %x", id, h2.Alh(), s.alhs[id-1]), nil)
+		}
+	}
+	for round := 0; round < 4 && next <= limit && ctx.Err() == nil; round++ {
+		if !launch(1 + s.r.Uint64N(3)) {
+			return
+		}
+		if s.r.IntN(3) == 0 {
+			sample("group-in-flight")
+		}
+		if err := st.Sync(); err != nil {
+			s.c.Inconclusive("durability probe: Sync: " + err.Error())
+			return
+		}
+		// some of the now durable txs stay uncommitted: committed < durable
+		if d, _ := st.PrecommittedAlh(); d > 1 && s.r.IntN(3) > 0 {
+			c0, _ := st.CommittedAlh()
+			if up := c0 + s.r.Uint64N(d-c0); up > c0 {
+				st.AllowCommitUpto(up)
+				st.Sync() // a synced store commits the allowed ones at a sync
+			}
+		}
+		if s.r.IntN(2) == 0 {
+			sample("after-sync")
+		}
+		// the next group is in memory only, behind durable and uncommitted ones
+		if !launch(1 + s.r.Uint64N(3)) {
+			return
+		}
+		sample("next-group-in-flight")
+	}
+	st.Sync()
 }
 
 func (s *l1run) openReplica() bool {
@@ -784,7 +920,7 @@ func (s *l1run) deliverBatch(limit uint64) {
 func (s *l1run) deliverNext(why string) {
 	st := s.state()
 	id := st.pre + 1
-	if id > s.n {
+	if id > s.n || (s.limit > 0 && id > s.limit) {
 		return
 	}
 	s.makeRoom(1)
@@ -993,7 +1129,11 @@ func (s *l1run) restart(limit uint64) {
 	if s.cf.REmbedded {
 		emb = "/embedded-values" // the loader of precommitted txs at Open does not skip the embedded-values prefix
 	}
-	if lost && dirty {
+	if lost && s.cf.REmbedded {
+		// with embedded values nothing precommitted is ever reloaded: that cause comes first, discard or not
+		s.viol("restart/acknowledged-precommit-lost/embedded-values", fmt.Sprintf("ReplicateTx acknowledged up to tx %d before a clean restart; afterwards the replica is at %s", maxOK, after), nil)
+	} else if lost && dirty {
+		s.c.Note(fmt.Sprintf("[%s %s] precommit lost after discard: lastDiscard=%d before=%s maxOK=%d after=%s midflight=%v", s.cf.Name, s.cf, s.lastDiscard, before, maxOK, after, midflight))
 		s.viol("restart/acknowledged-precommit-lost-after-discard", fmt.Sprintf("txs since %d were discarded, then ReplicateTx acknowledged (durable precommit) the primary's txs up to %d; after a clean restart the replica is at %s: acknowledged precommits are gone (the tx log still held the discarded txs, reloading stops at them)", s.lastDiscard, maxOK, after), nil)
 	} else if lost {
 		s.viol("restart/acknowledged-precommit-lost"+emb, fmt.Sprintf("ReplicateTx acknowledged up to tx %d before a clean restart; afterwards the replica is at %s", maxOK, after), nil)
@@ -1185,7 +1325,7 @@ func (s *l1run) alterBatch(count int) {
 	for k := 0; k < count && s.altLeft > 0 && !s.dead; k++ {
 		before := s.state()
 		id := before.pre + 1
-		if id > s.n {
+		if id > s.n || (s.limit > 0 && id > s.limit) {
 			return
 		}
 		s.makeRoom(2)
@@ -1513,12 +1653,17 @@ func runL1(c *fw.Ctx, cf l1cfg) {
 		limit := s.n
 		if !forkDone {
 			limit = s.forkAt
-			if st.pre == s.forkAt {
-				s.forkScenario()
+			if st.pre >= s.forkAt {
+				if st.pre == s.forkAt {
+					s.forkScenario()
+				} else {
+					s.c.Count("l1_fork_scenarios_skipped", 1)
+				}
 				forkDone = true
 				continue
 			}
 		}
+		s.limit = limit
 		a := s.r.IntN(100)
 		s.trail = append(s.trail, fmt.Sprintf("#%d a=%d pre=%d com=%d lastDiscard=%d", step, a, st.pre, st.com, s.lastDiscard))
 		if len(s.trail) > 14 {
@@ -1548,7 +1693,7 @@ func runL1(c *fw.Ctx, cf l1cfg) {
 		return
 	}
 	if st := s.state(); st.pre < s.n {
-		c.Inconclusive(fmt.Sprintf("[%s] schedule ended at frontier %d of %d", cf.Name, st.pre, s.n))
+		c.Inconclusive(fmt.Sprintf("[%s %s] schedule ended at frontier %d of %d; last steps: %s", cf.Name, cf, st.pre, s.n, strings.Join(s.trail, " | ")))
 		return
 	}
 	s.alterLeftovers()
